@@ -16,7 +16,7 @@ RULE = (
     "+-m*2^(8j), random to 2^2048, written and read as INTEGER and ENUMERATED with default and custom tags; reads of minimal, "
     "0x00/0xFF-padded and random content; tags of 4 classes x boundary tag numbers x both forms; lengths across 127/128/255/256/"
     "65535/65536; booleans with every content octet; octet strings; random nested sequence/set trees read back structurally with a "
-    "trailer; non-trivial = |v| >= 128, multi-octet tag or length, padded content, or nesting; distinct by hash of the literal case"
+    "trailer; random interleavings of peek_header / read_* (with and without header=) / skip_value on one reader against a reference cursor; non-trivial = |v| >= 128, multi-octet tag or length, padded content, or nesting; distinct by hash of the literal case"
 )
 ASSUMPTIONS = [
     "UNIVERSAL tag numbers are restricted to the defined TypeTagNumber members (DESIGN 7.1)",
@@ -30,7 +30,7 @@ def shards(tier):
 
 def gates(c, tier):
     need = ["int-write", "int-read-padded", "int-read-random", "enum", "tag", "tag-multioctet", "len-long", "bool", "octets", "nest",
-            "child-refuses-sibling", "contract:_pack_asn1_integer", "contract:_read_asn1_integer", "contract:_pack_asn1",
+            "child-refuses-sibling", "reader-op-sequences", "contract:_pack_asn1_integer", "contract:_read_asn1_integer", "contract:_pack_asn1",
             "contract:_read_asn1_header", "contract:_pack_asn1_octet_number", "contract:_unpack_asn1_octet_number"]
     return [f"never exercised: {k}" for k in need if c.get(k, 0) == 0]
 
@@ -259,6 +259,97 @@ def chk_child_refuses(r):
     return []
 
 
+def g_items(r, n):
+    """A flat series of TLVs with their reference description: (kind, value, tag triple, encoded bytes)."""
+    items = []
+    for _ in range(n):
+        k = r.choice(["int", "enum", "oct", "bool", "seq", "set", "ctx"])
+        if k == "int":
+            v = gv.g_int(r)
+            items.append((k, v, (0, 2, False), _tlv(0, False, 2, ber.int_content(v))))
+        elif k == "enum":
+            v = r.choice([0, 1, 2, 3, 80, 127, 128, 4096])
+            items.append((k, v, (0, 10, False), _tlv(0, False, 10, ber.int_content(v))))
+        elif k == "oct":
+            v = r.randbytes(r.choice([0, 1, 2, 127, 128]))
+            items.append((k, v, (0, 4, False), _tlv(0, False, 4, v)))
+        elif k == "bool":
+            v = r.random() < 0.5
+            items.append((k, v, (0, 1, False), _tlv(0, False, 1, b"\xff" if v else b"\x00")))
+        elif k in ("seq", "set"):
+            inner = r.randbytes(0) + _tlv(0, False, 2, ber.int_content(r.randrange(0, 300))) * r.choice([0, 1, 2])
+            num = 16 if k == "seq" else 17
+            items.append((k, inner, (0, num, True), _tlv(0, True, num, inner)))
+        else:
+            num = r.choice([0, 3, 7, 30, 31, 99, 1024])
+            v = r.randbytes(r.choice([0, 1, 5]))
+            items.append((k, v, (2, num, False), _tlv(2, False, num, v)))
+    return items
+
+
+def chk_reader_ops(items, ops, trailer):
+    """Random interleaving of peek_header / read_* (with and without header=) / skip_value on one reader, against a
+    reference cursor. ops: list of op names, one per step; the step consumes the next item unless it is 'peek'."""
+    out = []
+    data = b"".join(it[3] for it in items) + trailer
+    rd = A.ASN1Reader(data)
+    pos = 0
+    held = None  # header returned by the last peek, valid for item `pos`
+    for op in ops:
+        if pos >= len(items):
+            break
+        kind, val, tag, enc = items[pos]
+        try:
+            if op == "peek":
+                h = rd.peek_header()
+                exp = (tag[0], tag[1], tag[2], _hdr_len(enc), len(enc) - _hdr_len(enc))
+                got = (int(h.tag.tag_class), int(h.tag.tag_number), bool(h.tag.is_constructed), h.tag_length, h.length)
+                if got != exp:
+                    out.append(("reader-peek-stale-or-wrong", f"item {pos} ({kind}): peek_header gave {got}, the next value's header is {exp}"))
+                    return out
+                held = h
+                continue
+            use_header = held if (op.endswith("+h") and held is not None) else None
+            base = op.replace("+h", "")
+            if base == "skip":
+                rd.skip_value(held if held is not None else rd.peek_header())
+                res = val
+            elif kind == "int":
+                res = rd.read_integer(header=use_header)
+            elif kind == "enum":
+                res = rd.read_enumerated(int, header=use_header)
+            elif kind == "oct":
+                res = rd.read_octet_string(header=use_header)
+            elif kind == "bool":
+                res = rd.read_boolean(header=use_header)
+            elif kind == "seq":
+                res = rd.read_sequence(header=use_header).get_remaining_data()
+            elif kind == "set":
+                res = rd.read_set(header=use_header).get_remaining_data()
+            else:
+                res = rd.read_octet_string(tag=A.ASN1Tag(A.TagClass(tag[0]), tag[1], tag[2]), header=use_header)
+            if res != val:
+                out.append(("reader-sequence-value", f"item {pos} ({kind}) read as {res!r}, expected {val!r} (op {op})"))
+                return out
+            held = None
+            pos += 1
+        except Exception as e:
+            out.append((f"reader-sequence-exc:{norm_msg(e)}", f"item {pos} ({kind}) op {op}: {type(e).__name__}: {e}"))
+            return out
+    exp_rest = b"".join(it[3] for it in items[pos:]) + trailer
+    if rd.get_remaining_data() != exp_rest:
+        out.append(("reader-sequence-consumed", f"after {pos} items the reader's remaining data is not the unread suffix"))
+    return out
+
+
+def _hdr_len(enc: bytes) -> int:
+    cls, pc, num, cs, ln = ber.read_header(enc, 0, len(enc))
+    return cs
+
+
+READER_OPS = ["peek", "peek", "read", "read", "read+h", "skip"]
+
+
 TAG_NUMS = list(range(0, 41)) + [126, 127, 128, 129, 255, 256, 16383, 16384, 2**21 - 1, 2**21, 2**28, 2**35]
 UNIV_NUMS = sorted({int(x) for x in A.TypeTagNumber})
 LENS = [0, 1, 126, 127, 128, 129, 255, 256, 257, 65535, 65536, 65537]
@@ -282,6 +373,13 @@ def run_case(kind, args):
         return chk_long_length_forms(bytes(args[0]), args[1], bytes(args[2]))
     if kind == "tree":
         return chk_tree(_untree(args[0]), bytes(args[1]))
+    if kind == "readerops":
+        import random as _random
+
+        rr = _random.Random(args[0])
+        items = g_items(rr, args[1])
+        ops = [rr.choice(READER_OPS) for _ in range(args[1] * 3)]
+        return chk_reader_ops(items, ops, bytes(args[2]))
     raise ValueError(kind)
 
 
@@ -359,6 +457,8 @@ def run_shard(ctx: Ctx, acc: Acc):
         val = r.randbytes(r.choice([0, 1, 127, 128, 255, 256, 300]))
         do("lenform", (val, r.choice([1, 2, 3, 4, 5, 8, 126]), r.choice(TRAILERS)), True, "len-long")
         acc.count("octets")
+        if i % 2 == 0:
+            do("readerops", (r.randrange(1 << 60), r.choice([2, 3, 5, 9]), r.choice(TRAILERS)), True, "reader-op-sequences")
         if i % 4 == 0:
             t = g_tree(r, r.choice([1, 2, 3, 5]))
             do("tree", (t, r.choice(TRAILERS)), t[0] in ("seq", "set"), "nest")
